@@ -43,7 +43,7 @@ def gen_spec(rng):
     for x in names:
         reactant = rng.random() < 0.5
         imp = rng.choice([0, 5, 10, 20, F(5, 2), 1000])
-        exp = rng.choice([0, 10, 1000, 1000, F(7, 2)])
+        exp = rng.choice([0, 0, 10, 1000, 1000, F(7, 2)])
         if reactant:     # X_e -->   import = negative flux
             rxns.append({"id": f"EX_{x}_e", "st": {f"{x}_e": "-1"}, "lb": n2s(-imp), "ub": n2s(exp), "rule": ""})
         else:            # --> X_e   import = positive flux
@@ -208,7 +208,7 @@ def gen_case(rng):
         ids = rng.sample(sorted(exs), rng.randint(0, len(exs)))
         return {"kind": "setter", "spec": spec, "medium": {k: n2s(rng.choice([0, 0, 1, 5, F(7, 2), 10, 1000, F(1, 4)])) for k in ids}}
     return {"kind": "minimal", "spec": spec, "min_objective_value": rng.choice(["1/10", "1", "2", "5", "50", "2000", "1/2"]),
-            "exports": rng.random() < 0.3, "minimize_components": rng.random() < 0.35,
+            "exports": rng.random() < 0.3, "minimize_components": rng.random() < 0.45,
             "open_exchanges": rng.choice([False, False, True, 50])}
 
 
@@ -234,9 +234,10 @@ def run(ctx):
     skipped, kinds = {}, {"setter": 0, "minimal": 0, "minimal-none": 0, "components": 0}
     distinct = set()
     samples = []
+    corpus = common.load_corpus("C18")
     while ran < n and tries < n * 3 and not ctx.violations:
         tries += 1
-        case = gen_case(rng)
+        case = corpus.pop(0) if corpus else gen_case(rng)
         fails, why = check_case(case)
         if fails is None:
             skipped[why] = skipped.get(why, 0) + 1
